@@ -673,9 +673,11 @@ impl Pol {
     }
 }
 
-pub const NAME_POOL: [&str; 30] = [
+pub const NAME_POOL: [&str; 36] = [
     "a", "b", "c", "d", "e", "f", "x", "y", "z", "p1", "q_2", "x'", "'y", "Ab", "é", "ñu", "变量",
     "v_0", "v_1", "_", "T", "F", "orx", "nota", "A", "t", "x_", "aB", "a_rather_long_variable_name", "v10",
+    // words that are keywords in related languages but plain identifiers here
+    "top", "bot", "xnor", "let", "tt", "ff",
 ];
 
 pub fn gen_cfg(rng: &mut Prng, max_names: usize, max_depth: usize) -> GenCfg {
